@@ -4,7 +4,7 @@ import json
 META = {
     "level": "exploration",
     "technique": "metric laws model-checked by TLC on 5-bit keys (two canaries); the real KeyBytes/KBucketKey distance, for_distance, ilog2 and the table's bucket placement evaluated on all triples of b-bit keys under four embeddings into 256-bit keys and compared by TLC with the expected values; random and edge 256-bit keys checked for the relational laws",
-    "text": "TLC proves identity, symmetry, triangle inequality, unidirectionality, for_distance inverse and 'bucket index = highest set bit' for all 32^3 triples of 5-bit keys in the TLA+ model and rejects two canaries (for_distance with +, ilog2 off by one). The real API is evaluated on every triple of 3-bit (thorough: 4-bit) keys embedded at bit positions 0.., 100.., 256-b.. and at random scattered positions (XOR-masked with a random 256-bit constant); distances, for_distance results, ilog2 and the bucket in which the key lands in a real KBucketsTable are mapped back to the abstract domain and TLC compares them with its own XOR / highest-bit computation. Seeded random and edge-case 256-bit keys (0, all-ones, single bits, 2^k-1, high masks, equal keys) are checked for the laws with 256-bit arithmetic in the driver. Full-width arithmetic is sampled, not proved.",
+    "text": "TLC proves identity, symmetry, triangle inequality, unidirectionality, for_distance inverse and 'bucket index = highest set bit' for all 32^3 triples of 5-bit keys in the TLA+ model and rejects two canaries (for_distance with +, ilog2 off by one). The real API is evaluated on every triple of 3-bit (thorough: 4-bit) keys embedded at bit positions 0.., 100.., 256-b.. and at random scattered positions (XOR-masked with a random 256-bit constant); distances, for_distance results, ilog2, the bucket in which the key lands in a real KBucketsTable and the bucket (with its distance range) KBucketsTable::bucket returns for it - none for the local key - are mapped back to the abstract domain and TLC compares them with its own XOR / highest-bit computation. Seeded random and edge-case 256-bit keys (0, all-ones, single bits, 2^k-1, high masks, equal keys) are checked for the laws with 256-bit arithmetic in the driver. Full-width arithmetic is sampled, not proved.",
     "note": "A pure function over a 2^256 domain: the abstract case analysis (which bit is the highest differing one, carries in the triangle inequality) is covered exhaustively at small width under several embeddings; the wide part is sampling.",
     "design_ref": "6/C40",
 }
